@@ -171,7 +171,8 @@ func (t *SymbolTable) Verify() error {
 func (t *SymbolTable) ensureSingleDefs() error {
 	var errs error
 
-	for a, e := range t.terminals.table.All() {
+	for _, a := range t.orderedTerminals() {
+		e, _ := t.terminals.table.Get(a)
 		if count := len(e.definitions); count == 0 {
 			errs = errors.Append(errs, fmt.Errorf("no definition for terminal %s", a))
 		} else if count > 1 {
@@ -192,16 +193,21 @@ func (t *SymbolTable) ensureSingleDefs() error {
 func (t *SymbolTable) ensureDistinctDefs() error {
 	var errs error
 
+	var values []string
 	reverse := make(map[string][]*TerminalDef)
-	for _, e := range t.terminals.table.All() {
+	for _, a := range t.orderedTerminals() {
+		e, _ := t.terminals.table.Get(a)
 		if len(e.definitions) == 1 {
 			def := e.definitions[0]
+			if _, ok := reverse[def.Value]; !ok {
+				values = append(values, def.Value)
+			}
 			reverse[def.Value] = append(reverse[def.Value], def)
 		}
 	}
 
-	for val, defs := range reverse {
-		if len(defs) > 1 {
+	for _, val := range values {
+		if defs := reverse[val]; len(defs) > 1 {
 			poses := generic.Transform(defs, func(def *TerminalDef) string {
 				return fmt.Sprintf("  %s: %s", def.Pos, def.Terminal)
 			})
@@ -213,6 +219,19 @@ func (t *SymbolTable) ensureDistinctDefs() error {
 	}
 
 	return errs
+}
+
+// orderedTerminals returns the terminals of the symbol table in a fixed order,
+// so that the diagnostics are reported in the same order on every run.
+func (t *SymbolTable) orderedTerminals() []grammar.Terminal {
+	var all []grammar.Terminal
+	for a := range t.terminals.table.All() {
+		all = append(all, a)
+	}
+
+	sort.Quick(all, grammar.CmpTerminal)
+
+	return all
 }
 
 // ensureStartSymbol ensures a production rule exists with the start symbol as the head non-terminal.
